@@ -32,6 +32,12 @@ type Mutant struct {
 	Name, File, Old, New, Rule, Site string
 	// optional second replacement in the same file (e.g. a statement moved out of a loop)
 	Old2, New2 string
+	// Patch: instead of a textual replacement, a unified diff (path relative to /verif) applied to a
+	// scratch copy of the files it touches; the patched files become the overlay. Used for the stored
+	// seeded defects (/verif/seeded) and behaviour-preserving refactorings (/verif/neutral).
+	Patch string
+	// Documented: a miss of this control is a documented limit (reason), not a regression
+	Documented string
 }
 
 var props = map[string]*PropDef{}
@@ -45,9 +51,33 @@ func main() {
 	replay := flag.String("replay", "", "replay file: re-run the rule instance named in it")
 	listF := flag.Bool("list", false, "list properties")
 	nocontrols := flag.Bool("nocontrols", false, "skip overlay controls in the thorough tier")
+	invF := flag.Bool("inventory", false, "print the inventory of first-party functions (linux, windows, darwin)")
+	flag.BoolVar(&noInline, "noinline", false, "do not inline calls of helpers that are not in the inventory")
 	flag.StringVar(&repoDir, "repo", "/repo", "repository to analyse")
 	flag.StringVar(&verifDir, "verif", "/verif", "verification directory")
 	flag.Parse()
+	if *invF {
+		noInline = true
+		all := map[string]bool{}
+		for _, g := range []string{"linux", "windows", "darwin"} {
+			p, err := Load(g, nil, "./...")
+			if err != nil {
+				fmt.Fprintln(os.Stderr, err)
+				os.Exit(2)
+			}
+			for _, k := range inventoryOf(p.Pkgs) {
+				all[k] = true
+			}
+		}
+		var ks []string
+		for k := range all {
+			ks = append(ks, k)
+		}
+		sort.Strings(ks)
+		fmt.Println("# first-party functions of the pinned tree (scalint -inventory); see inline.go")
+		fmt.Println(strings.Join(ks, "\n"))
+		return
+	}
 	if *listF {
 		var ids []string
 		for k := range props {
@@ -103,6 +133,12 @@ func analyse(pd *PropDef, r *Report, tier string, overlay map[string][]byte) (co
 		r.configs = append(r.configs, g)
 		r.Count("packages_loaded["+g+"]", len(p.Pkgs))
 		r.Count("functions_analysed["+g+"]", p.nfuncs)
+		if len(p.Inlined) > 0 {
+			r.Count("new_helper_calls_inlined["+g+"]", len(p.Inlined))
+			for _, l := range p.Inlined {
+				r.Note("%s", "normalisation: "+l)
+			}
+		}
 		if len(p.Pkgs) == 0 || p.nfuncs == 0 {
 			r.Undecided("load", "load:"+g, "-", "no packages / functions loaded")
 			continue
@@ -122,6 +158,9 @@ func analyse(pd *PropDef, r *Report, tier string, overlay map[string][]byte) (co
 // ---- overlay controls ----
 
 func mutantOverlay(m Mutant) (map[string][]byte, string) {
+	if m.Patch != "" {
+		return patchOverlay(filepath.Join(verifDir, m.Patch))
+	}
 	path := filepath.Join(repoDir, m.File)
 	b, err := os.ReadFile(path)
 	if err != nil {
@@ -141,9 +180,101 @@ func mutantOverlay(m Mutant) (map[string][]byte, string) {
 	return map[string][]byte{path: []byte(s)}, ""
 }
 
+// patchOverlay applies a unified diff to scratch copies of the files it names and returns them as an
+// overlay of /repo. The scratch directory lives under the system temp directory and is removed.
+func patchOverlay(diff string) (map[string][]byte, string) {
+	b, err := os.ReadFile(diff)
+	if err != nil {
+		return nil, "skipped: patch file missing"
+	}
+	var files []string
+	for _, l := range strings.Split(string(b), "\n") {
+		if strings.HasPrefix(l, "+++ b/") {
+			files = append(files, strings.TrimSpace(strings.TrimPrefix(l, "+++ b/")))
+		}
+	}
+	if len(files) == 0 {
+		return nil, "skipped: patch names no file"
+	}
+	tmp, err := os.MkdirTemp("", "scalint-patch-")
+	if err != nil {
+		return nil, "skipped: no scratch directory"
+	}
+	defer os.RemoveAll(tmp)
+	for _, f := range files {
+		src, err := os.ReadFile(filepath.Join(repoDir, f))
+		if err != nil {
+			continue // a file the patch creates
+		}
+		dst := filepath.Join(tmp, f)
+		os.MkdirAll(filepath.Dir(dst), 0o755)
+		os.WriteFile(dst, src, 0o644)
+	}
+	cmd := exec.Command("patch", "-p1", "-s", "-f", "--no-backup-if-mismatch", "-d", tmp, "-i", diff)
+	if out, err := cmd.CombinedOutput(); err != nil {
+		return nil, "skipped: patch does not apply to the current tree: " + short(strings.TrimSpace(string(out)), 120)
+	}
+	ov := map[string][]byte{}
+	for _, f := range files {
+		nb, err := os.ReadFile(filepath.Join(tmp, f))
+		if err != nil {
+			continue // deleted by the patch: cannot be expressed as an overlay
+		}
+		if strings.HasSuffix(f, "_test.go") {
+			continue
+		}
+		ov[filepath.Join(repoDir, f)] = nb
+	}
+	if len(ov) == 0 {
+		return nil, "skipped: patch leaves nothing to overlay"
+	}
+	return ov, ""
+}
+
+// storedControls: the seeded defects and neutral refactorings stored under /verif for this property.
+func storedControls(pd *PropDef) (seeds, neutral []Mutant) {
+	if ds, err := os.ReadDir(filepath.Join(verifDir, "seeded")); err == nil {
+		for _, d := range ds {
+			if !strings.HasPrefix(d.Name(), pd.ID+"-") {
+				continue
+			}
+			if _, err := os.Stat(filepath.Join(verifDir, "seeded", d.Name(), "patch.diff")); err != nil {
+				continue
+			}
+			seeds = append(seeds, Mutant{Name: "seed:" + d.Name(), Patch: filepath.Join("seeded", d.Name(), "patch.diff"), Documented: documentedMisses[d.Name()]})
+		}
+	}
+	if ds, err := os.ReadDir(filepath.Join(verifDir, "neutral")); err == nil {
+		for _, d := range ds {
+			dir := filepath.Join(verifDir, "neutral", d.Name())
+			if _, err := os.Stat(filepath.Join(dir, "patch.diff")); err != nil {
+				continue
+			}
+			// registered for the property it was written for and for every property it alarmed when it arrived
+			mine := strings.HasPrefix(d.Name(), pd.ID+"-")
+			if b, err := os.ReadFile(filepath.Join(dir, "check_asis.json")); err == nil && strings.Contains(string(b), "\"property\": \""+pd.ID+"\"") {
+				mine = true
+			}
+			if mine {
+				neutral = append(neutral, Mutant{Name: "neutral:" + d.Name(), Patch: filepath.Join("neutral", d.Name(), "patch.diff")})
+			}
+		}
+	}
+	return seeds, neutral
+}
+
+// documentedMisses: seeded defects the static rules do not detect, with the reason (DESIGN.md §7).
+var documentedMisses = map[string]string{
+	"C07-A": "value-level: a wrong comparison result for particular version strings; no structural rule decides it",
+	"C07-D": "value-level: a wrong comparison result for particular version strings; no structural rule decides it",
+	"C07-F": "value-level: a wrong comparison result for particular version strings; no structural rule decides it",
+	"C02-F": "the panic is raised inside a third-party decoder on a nil argument its contract does not document",
+}
+
 // runMutant: exit 0 fired, 3 missed, 4 skipped, 5 mutant does not compile.
 func runMutant(pd *PropDef, name string) int {
-	for _, m := range pd.Neutral {
+	ctl, neu := allControls(pd)
+	for _, m := range neu {
 		if m.Name != name {
 			continue
 		}
@@ -185,7 +316,7 @@ func runMutant(pd *PropDef, name string) int {
 		fmt.Println("quiet")
 		return 0
 	}
-	for _, m := range pd.Controls {
+	for _, m := range ctl {
 		if m.Name != name {
 			continue
 		}
@@ -205,6 +336,11 @@ func runMutant(pd *PropDef, name string) int {
 			}
 		}
 		for _, o := range r.obls {
+			if m.Patch != "" && o.Verdict >= Violation && o.Rule != "load" && !isKnownObl(pd.ID, o.Rule, o.Site) {
+				// a stored seeded defect: any violation of the property counts
+				fmt.Printf("fired: [%s] %s: %s\n", o.Rule, o.Site, short(o.Detail, 200))
+				return 0
+			}
 			if o.Verdict >= Violation && o.Rule == m.Rule && strings.Contains(o.Site, m.Site) {
 				fmt.Printf("fired: [%s] %s: %s\n", o.Rule, o.Site, short(o.Detail, 200))
 				return 0
@@ -216,11 +352,34 @@ func runMutant(pd *PropDef, name string) int {
 				other = append(other, o.Rule+"@"+o.Site)
 			}
 		}
+		if m.Documented != "" {
+			fmt.Printf("not detected — documented limit: %s\n", m.Documented)
+			return 6
+		}
 		fmt.Printf("MISSED (other reports: %v)\n", other)
 		return 3
 	}
 	fmt.Println("no such control")
 	return 4
+}
+
+func isKnownObl(prop, rule, site string) bool {
+	known, _, _ := loadKnown(filepath.Join(verifDir, "known_findings.txt"))
+	for _, k := range known {
+		if k.prop == prop && k.rule == rule && k.site == site {
+			return true
+		}
+	}
+	return false
+}
+
+// allControls: the property's own overlay controls plus the stored seeded defects, and its neutral
+// variants plus the stored behaviour-preserving refactorings.
+func allControls(pd *PropDef) (controls, neutral []Mutant) {
+	seeds, stored := storedControls(pd)
+	controls = append(append([]Mutant{}, pd.Controls...), seeds...)
+	neutral = append(append([]Mutant{}, pd.Neutral...), stored...)
+	return controls, neutral
 }
 
 func runControls(pd *PropDef, r *Report) {
@@ -229,7 +388,8 @@ func runControls(pd *PropDef, r *Report) {
 		r.Note("controls not run: %v", err)
 		return
 	}
-	all := append(append([]Mutant{}, pd.Controls...), pd.Neutral...)
+	ctl, neu := allControls(pd)
+	all := append(append([]Mutant{}, ctl...), neu...)
 	res := make([]controlResult, len(all))
 	sem := make(chan struct{}, 4)
 	var wg sync.WaitGroup
@@ -248,7 +408,10 @@ func runControls(pd *PropDef, r *Report) {
 				code = -1
 			}
 			cr := controlResult{Name: m.Name, Kind: "mutant", Detail: short(strings.TrimSpace(string(out)), 240)}
-			neutral := i >= len(pd.Controls)
+			neutral := i >= len(ctl)
+			if strings.HasPrefix(m.Name, "seed:") {
+				cr.Kind = "seeded-defect"
+			}
 			if neutral {
 				cr.Kind = "neutral-variant"
 			}
@@ -260,6 +423,8 @@ func runControls(pd *PropDef, r *Report) {
 				}
 			case 4, 5:
 				cr.Result = "skipped"
+			case 6:
+				cr.Result = "documented-miss"
 			default:
 				cr.Result = "MISSED"
 				if neutral {
@@ -270,7 +435,7 @@ func runControls(pd *PropDef, r *Report) {
 		}(i, m)
 	}
 	wg.Wait()
-	fired, missed, skipped, quiet, falseAlarms := 0, 0, 0, 0, 0
+	fired, missed, skipped, quiet, falseAlarms, documented := 0, 0, 0, 0, 0, 0
 	for _, c := range res {
 		r.controls = append(r.controls, c)
 		switch c.Result {
@@ -279,6 +444,8 @@ func runControls(pd *PropDef, r *Report) {
 		case "FALSE-ALARM":
 			falseAlarms++
 			fmt.Printf("CONTROL-FALSE-ALARM: %s %s: %s\n", pd.ID, c.Name, c.Detail)
+		case "documented-miss":
+			documented++
 		case "fired":
 			fired++
 		case "MISSED":
@@ -291,6 +458,7 @@ func runControls(pd *PropDef, r *Report) {
 	r.Count("controls_fired", fired)
 	r.Count("controls_missed", missed)
 	r.Count("controls_skipped", skipped)
+	r.Count("controls_documented_miss", documented)
 	r.Count("neutral_variants_quiet", quiet)
 	r.Count("neutral_variants_false_alarm", falseAlarms)
 }
